@@ -90,7 +90,9 @@ pub fn disagreement<D: Store + Mk>(
         native::install(&cfg.resolves, cfg.apply_accept);
         Host { mode: HostMode::Native, resolve: HashMap::new(), apply_accept: false, defer_accept: false }
     } else {
-        Host { mode: HostMode::Script, resolve: cfg.resolves.clone(), apply_accept: cfg.apply_accept, defer_accept: false }
+        // a program in which the reference offers nothing to the host's deferred-operation hook runs under a host
+        // that would accept one: any call of the hook is then unexpected and shows in the log (and in the value)
+        Host { mode: HostMode::Script, resolve: cfg.resolves.clone(), apply_accept: cfg.apply_accept, defer_accept: r.defers == 0 }
     };
     let run = real_in::<D>(Mon::new(fresh()), &src, input, &RunCfg { max_steps, host });
     let native_log = if cfg.native { native::take_log() } else { vec![] };
@@ -145,7 +147,15 @@ pub fn disagreement<D: Store + Mk>(
                     })
                 }
             },
-            HostCall::Defer { .. } => acc.count("defer_calls_seen"),
+            HostCall::Defer { op, lt, rt, .. } => {
+                acc.count("defer_calls_seen");
+                if !cfg.native && r.defers == 0 {
+                    return Some(Checked {
+                        class: format!("host-log|unexpected-defer|{:?}({:?},{:?})|{}", op, lt, rt, tag),
+                        desc: format!("[{}] {:?} with $ = {}: the host's deferred-operation hook was offered {:?} on ({:?}, {:?}) although every operation of this program has a defined result", tag, src, input.show(), op, lt, rt),
+                    });
+                }
+            }
         }
     }
     acc.add("host_events_observed", got_log.len() as u64);
